@@ -481,6 +481,9 @@ def _put_one_constant(
     if hasattr(ast, 'kind'):  # reset any 'u' kind strings
         ast.kind = None
 
+    if value.__class__ is int and (parent := self.parent) and parent.a.__class__ is Attribute and not self.pars().n:
+        self._parenthesize_grouping()  # "3.__abs__()" -> "(3).__abs__()", same as when putting the Constant node
+
     return self  # this breaks the rule of returning the child node since it is just a primitive
 
 
